@@ -13,7 +13,13 @@ from common import enc, dec
 
 LEVEL = "proof"
 THEOREMS = ["Mistune.refLookup_refAdd_same", "Mistune.refLookup_refAdd_other", "Mistune.refBuild_first", "Mistune.refBuild_append_stable",
-            "Mistune.unikeyPy_idem", "Mistune.unikeyPy_ws_run", "Mistune.unikeyPy_ws_lead", "Mistune.unikeyPy_ws_trail", "Mistune.unikeyPy_case"]
+            "Mistune.unikeyPy_idem", "Mistune.unikeyPy_ws_run", "Mistune.unikeyPy_ws_lead", "Mistune.unikeyPy_ws_trail", "Mistune.unikeyPy_case",
+            # refinement: the CONCRETE model's handlers are steps of the abstract reference-table machine. parse_ref_link changes env only by the refAdd step of an accepted definition
+            # (stored iff the normalised key was absent); every other block handler (core and plugins, containers threading child.env) leaves ref_links alone; hence for EVERY source
+            # string and configuration the final table of the block pass is refBuild over the accepted definitions in call order and a key resolves to its FIRST definition
+            # (blockParse_refs / _first / _use); the use site looks the label up by unikey (parseLinkRef_lookup, with the case / white-space laws lifted)
+            "Mistune.Model.parseRefLink_env", "Mistune.Model.parseRefLink_decline", "Mistune.Model.parseRefLink_invalid", "Mistune.Model.blockParse_refs", "Mistune.Model.blockParse_first",
+            "Mistune.Model.blockParse_use", "Mistune.Model.parseLinkRef_lookup", "Mistune.Model.parseLinkRef_case", "Mistune.Model.parseLinkRef_ws"]
 
 LABELS = ["foo", "Foo Bar", "ß", "a*b", "x y  z", "1", "ΑΓΩ", "Ǆ", "q\\]r", "İ", "ﬃ",
           # long labels: the limit of link labels counts a backslash escape as ONE character (so up to ~1000 source characters)
